@@ -167,6 +167,12 @@ def run(scn):
         return run_layer2(scn)
     t = cs.run_world(scn)
     viol = judge(t)
+    if t.second is not None:
+        for v in judge(t.second):
+            v['key'] += '|second-call'
+            v['facts']['call'] = 2
+            v['message'] = 'second compile() on the same compiler: ' + v['message']
+            viol.append(v)
     nontriv = bool(t.by('borrower.getData')) or bool(t.world.fired)
     return cs.outcome(t, viol, nontrivial=nontriv, extra_sig=[[b.get('genTexts') for b in scn.get('borrowers', ())]])
 
